@@ -36,7 +36,12 @@ func (u *UseCase) Set(ctx context.Context, key string, content io.Reader) error 
 		minSize uint64
 		closer  io.Closer
 	)
-	for dir, ok := range dirs.Iterate(u.randGen) {
+	// Iterate shuffles the directories right away, the iteration itself does not use the generator.
+	u.randM.Lock()
+	shuffled := dirs.Iterate(u.randGen)
+	u.randM.Unlock()
+
+	for dir, ok := range shuffled {
 		if !ok {
 			return fs_db.ErrNoFreeSpace
 		}
